@@ -213,7 +213,7 @@ def c08_3(ctx):
               'a parsed line is compilable iff the condition stack is active when it is reached', '; '.join(unparse(s) for s in sts))
     if sts:
         fcl = filter_facts_at(ctx, load, sts[0], resolver(ctx, load, inline=False))
-        lits = [l for c in fcl for l in c if not (l[0] == 'call' and 'startswith' in l[1]) and l[0] not in ('ge',)]
+        lits = [l for c in fcl for l in c if not (l[0] == 'call' and 'startswith' in l[1]) and l != ('truthy', 'line_str', True)]
         ok = lits == [('isinstance', 'lobj', 'ConditionLine', False)]
         ctx.check(ok, 'guard:compilable-every-line', load.site(sts[0]), 'the flag is set for every line object except condition lines',
                   describe_facts(fcl))
@@ -365,8 +365,17 @@ def c08_7(ctx):
     st_rhs = [(s, v) for s, t, v in self_attr_stores(hm.node, '_rhs_expression')]
     implied = any(isinstance(v, ast.Constant) and v.value == '!=' for s, v in st_op) and any(isinstance(v, ast.Constant) and v.value == '0' for s, v in st_rhs)
     ctx.check(implied, 'compare:bare-means-not-zero', hm.site(), "a bare expression means `!= 0`", f'{[unparse(v) for s, v in st_op]} / {[unparse(v) for s, v in st_rhs]}')
-    grp = [unparse(v) for s, v in st_op if not isinstance(v, ast.Constant)]
-    ctx.check(grp == ['match.group(2)'], 'compare:operator-from-pattern', hm.site(), 'the operator is pattern group 2', str(grp))
+    grp = [(s_, v) for s_, v in st_op if not isinstance(v, ast.Constant)]
+    cmp_param = hm.param_names[3] if len(hm.param_names) > 3 else 'compare_pattern'
+    ok = len(grp) == 1
+    if ok:
+        s_, v = grp[0]
+        ok = isinstance(v, ast.Call) and isinstance(v.func, ast.Attribute) and v.func.attr == 'group' and len(v.args) == 1 \
+            and isinstance(v.args[0], ast.Constant) and v.args[0].value == 2
+        if ok:
+            d = deref(ctx, hm, v.func.value, s_)
+            ok = isinstance(d, ast.Call) and isinstance(d.func, ast.Attribute) and d.func.attr in ('match', 'fullmatch') and unparse(d.func.value) == cmp_param
+    ctx.check(ok, 'compare:operator-from-pattern', hm.site(), 'the operator is group 2 of the comparison pattern\'s match', str([unparse(v) for _, v in grp]))
     for name in ('PREPROCESSOR_CONDITION_IF_PATTERN', 'PREPROCESSOR_CONDITION_ELIF_PATTERN'):
         pat = ctx.fold.module_const(COND, name).pattern
         ctx.check('(==|!=|>|>=|<|<=)' in pat or all(o in pat for o in ('==', '!=', '>=', '<=')), f'compare:pattern-ops:{name}',
